@@ -19,6 +19,9 @@ import (
 )
 
 type rwRT struct {
+	// switchBreakDepthBlind: set by switchBreaksRewritten when the break replacement asks nothing about nesting
+	switchBreakDepthBlind bool
+
 	c   *Ctx
 	w   *World
 	pkg *ssa.Package
